@@ -144,7 +144,10 @@ def vkey(trace, li):
     if e["op"] == "backoff":
         c = info.get("case", {})
         return "backoff %s att=%s pow=%s" % (c.get("class", "?"), c.get("attempt", "?"), info.get("pow", "?"))
-    eps = ",".join((x["cls"] + ("(%d)" % len(x["certs"]) if x["cls"] == "ok" else "")) if x["id"] == "plain"
+    def okk(x):
+        longs = [h for h in x.get("sh", []) if h.startswith("L")]
+        return "(%d%s)" % (len(x["certs"]), (":" + "/".join(x["sh"])) if longs else "")
+    eps = ",".join((x["cls"] + (okk(x) if x["cls"] == "ok" else "")) if x["id"] == "plain"
                    else "%s/%s/%s/%s" % (x["id"], x["vmax"], x["pol"], x["cls"]) for x in r0["eps"]) or "-"
     k = "sign n=%d via=%s eps=%s" % (len(r0["eps"]), info.get("via", "?"), eps)
     if r0["bundle"]["cas"]:
